@@ -528,3 +528,36 @@ func substituteFlagParams(p *core.Program, helper, caller *ssa.Function, paths [
 	}
 	return out, newAtoms
 }
+
+// loopExit is one way out of a loop: the branch condition (canonical atom with the value it has
+// when the loop is left) and the block control continues in.
+type loopExit struct {
+	atom string
+	val  bool
+	to   *ssa.BasicBlock
+}
+
+// loopExits lists the edges that leave the loop; an exit that is not a conditional branch has atom "".
+func loopExits(p *core.Program, l *core.Loop) []loopExit {
+	c := core.NewCanon(p)
+	var out []loopExit
+	for _, b := range l.Fn.Blocks {
+		if !l.Body[b] || len(b.Instrs) == 0 {
+			continue
+		}
+		for k, s := range b.Succs {
+			if l.Body[s] {
+				continue
+			}
+			ifi, ok := b.Instrs[len(b.Instrs)-1].(*ssa.If)
+			if !ok {
+				out = append(out, loopExit{"", true, s})
+				continue
+			}
+			atom, whenTrue := c.CondAtom(ifi.Cond)
+			// succ 0 is taken when the condition is true
+			out = append(out, loopExit{atom, (k == 0) == whenTrue, s})
+		}
+	}
+	return out
+}
